@@ -352,7 +352,40 @@ func mintBatch(dir string, seed int64, cases []lockCase, idx []int, out []lockLi
 				if c.Kind == "HTLC" {
 					signer = keyFor("P1")
 				}
+				// outputs signed by hand (P2PK): which keys sign which output
+				outSig := func(k int, key string, other bool) string {
+					raw, _ := hex.DecodeString(bms[k].B_)
+					h := sha256.Sum256(raw)
+					var sg *schnorr.Signature
+					if other {
+						aux := sha256.Sum256([]byte(fmt.Sprintf("other-nonce-out-%d", k)))
+						sg, _ = schnorr.Sign(keyFor(key), h[:], schnorr.CustomNonce(aux))
+					} else {
+						sg, _ = schnorr.Sign(keyFor(key), h[:])
+					}
+					return hex.EncodeToString(sg.Serialize())
+				}
+				setSigs := func(k int, sigs ...string) {
+					b, _ := json.Marshal(map[string]any{"signatures": sigs})
+					bms[k].Witness = string(b)
+				}
 				switch c.OSig {
+				case "cosigner":
+					// every output signed by the first co-signer alone (the helper, with a key that is not the lock key)
+					bms, rerr = nut11.AddSignatureToOutputs(bms, keyFor("P1"))
+					if rerr != nil {
+						return
+					}
+				case "onekeytwice":
+					// the first output carries signatures of two different co-signers; every later one two different
+					// signatures of the lock key alone
+					for k := range bms {
+						if k == 0 {
+							setSigs(k, outSig(k, "P1", false), outSig(k, "P2", false))
+						} else {
+							setSigs(k, outSig(k, "L", false), outSig(k, "L", true))
+						}
+					}
 				case "valid", "onemissing", "laterbad", "firstbad", "latermissing":
 					var e error
 					if c.Kind == "P2PK" {
